@@ -314,3 +314,31 @@ func VC06After(tbl, op, kind int) {
 		vAssert("int-refused-nop-ran", vEqModR(cpu.States, want))
 	}
 }
+
+// The request constructors hand the CPU exactly the bytes they were given, in
+// a slice of their own: the caller's buffer is neither modified nor aliased
+// (a device typically reuses its operand buffer for the next request).
+func VC06Ctor() {
+	a, lo, hi := vU8("a"), vU8("lo"), vU8("hi")
+	buf := make([]uint8, 2, 8) // spare capacity, as a reused device buffer has
+	buf[0], buf[1] = lo, hi
+	it := IM0Interrupt(a, buf...)
+	vAssert("im0-type", it.Type == IMType)
+	vAssert("im0-len", len(it.Data) == 3)
+	if len(it.Data) == 3 {
+		vAssert("im0-data", vAnd(it.Data[0] == a, vAnd(it.Data[1] == lo, it.Data[2] == hi)))
+	}
+	vAssert("caller-buffer-intact", vAnd(buf[0] == lo, buf[1] == hi))
+	// the device builds its next request in the same buffer
+	buf[0], buf[1] = ^lo, ^hi
+	if len(it.Data) == 3 {
+		vAssert("private-copy", vAnd(it.Data[0] == a, vAnd(it.Data[1] == lo, it.Data[2] == hi)))
+	}
+	one := IM0Interrupt(a)
+	vAssert("im0-single", vAnd(one.Type == IMType, vAnd(len(one.Data) == 1, one.Data[0] == a)))
+	v := vU8("v")
+	i2 := IM2Interrupt(v)
+	vAssert("im2", vAnd(i2.Type == IMType, vAnd(len(i2.Data) == 1, i2.Data[0] == v)))
+	vAssert("im1", IM1Interrupt().Type == IMType)
+	vAssert("nmi", NMIInterrupt().Type == NMIType)
+}
